@@ -1,4 +1,8 @@
 import PsV.Proofs.ConvSpec
+import PsV.Proofs.ConvEval
+import PsV.Proofs.ConvDriver
+import PsV.Proofs.ConvNd
+import PsV.Proofs.ConvDriverNd
 /-!
 # C14 — convolution produces the true convolution with the unit-area kernel spline
 
@@ -6,7 +10,7 @@ Property theorems only; they are about `PsV.convolve`, `PsV.coefLoops`, `PsV.fac
 `PsV.divdiff` — the definitions the driver executes (at `F32` for the bit-level tie, at `Rat` for the exact part) —
 and about the exact specification `PsV.ConvSpec`.
 
-**Not proved in Lean (carried by the correspondence on every run):** Strøm's identity, i.e.
+**Strøm's identity** (blossom transfer matrix = true convolution), i.e.
 
 ```
 theorem blossom_is_convolution (T : CTable Rat) (dim) (ck : List Rat) (xs : List Rat)
@@ -14,10 +18,19 @@ theorem blossom_is_convolution (T : CTable Rat) (dim) (ck : List Rat) (xs : List
     (R) (h : convolve T dim ck = some R) :
     (Σ over all stored coefficients of R: coef · Π_d B_d(x_d))  =  ConvSpec.specConv T dim ck xs
 ```
-The check evaluates both sides exactly in `Rat` on every generated case and demands equality (no tolerance).
-What *is* proved: the shape of the result, that the four loops are the mode product with the matrix `trafo`,
-that `factorial` (repaired) is the factorial, the value of the normalisation, linearity of `divdiff`, and that the
-antiderivative used by the specification is one.
+**is now proved in full** (`blossom_is_convolution` below: any number of dimensions, every order, every kernel with
+`n ≥ 2` knots, coinciding pairwise sums included, every point whose coordinate `dim` lies in the new knot range; the only
+arithmetic side condition is `order + n − 1 ≤ 12`, the range in which the `unsigned` factorials of the code are exact).
+The route: divided differences (Leibniz for a linear factor, annihilation of low-degree products) → `convoluted_blossom`
+in closed form incl. both early exits → Marsden's identity truncated at a knot (`blossom_sum`) → the transfer matrix
+against the new basis is a double divided difference of truncated powers; on the other side the specification's
+piecewise integral is brought to the same form (pieces as divided differences of truncated powers, any antiderivative,
+tile telescoping, Beta integral by parts); the two meet in `strom_identity_1d`; `transfer_is_mode_product` and a
+flattening of `ConvSpec.contract` lift it to tables (`blossom_is_convolution_slices`, `blossom_is_convolution`).
+The unit area of the kernel is proved for every `n ≥ 2` (`unit_area`).  The check still evaluates both sides exactly
+in `Rat` on every generated case (`driver_exact_check_holds` shows that this comparison can never fail in exact
+arithmetic under the stated hypotheses; it remains as a run-time validation of the hypotheses and of the driver).
+What is *not* proved: anything about floating-point round-off of the divided differences (see the known finding).
 -/
 namespace PsV
 open Arith
@@ -215,5 +228,246 @@ theorem spec_pieces_are_cox_de_boor (t : Int → Rat) (j p i : Nat) (x : Rat) :
 
 example : ConvSpec.peval (ConvSpec.bpiece (fun n => ((n : Nat) : Rat)) 0 1 0) (1/2) = 1/2 := by
   simp [ConvSpec.bpiece, ConvSpec.peval, ConvSpec.padd, ConvSpec.pmulLin, ConvSpec.pscale]
+
+/-! ## unit area of the kernel, every `n ≥ 2` -/
+
+open ConvSpec in
+/-- **unit area, any kernel**: the normalised kernel `M = q/(y_q − y_0) · B_{0,q−1}(· | y)` that the specification
+integrates against has `∫ M = 1`, for every `q ≥ 1` (`n = q+1 ≥ 2` kernel knots) and strictly increasing knots.
+(Supersedes `unit_area_box`, which is the case `q = 1`.) -/
+theorem unit_area (y : Nat → Rat) (q : Nat) (hq : 1 ≤ q) (hy : ∀ a b, a < b → b ≤ q → y a < y b) :
+    kernelArea y q = 1 :=
+  kernelArea_one y q hq hy
+
+example : ConvSpec.kernelArea (fun i => ((i : Nat) : Rat)^2) 4 = 1 :=
+  unit_area _ 4 (by omega) (by
+    intro a b hab _
+    exact_mod_cast Nat.pow_lt_pow_left hab (by norm_num))
+
+open ConvSpec in
+/-- the normalised kernel is the Cox–de Boor M-spline: piece `b` of the specification's kernel is `q/(y_q − y_0)` times
+the shared Cox–de Boor recursion `PsV.Bind` of degree `q−1` with the indicator of interval `b` -/
+theorem kernel_is_cox_de_boor (t : Int → Rat) (q b : Nat) (x : Rat) :
+    peval (kpiece (fun n => t (n : Nat)) q b) x =
+      (q : Rat) / (t (q : Nat) - t (0 : Nat)) * Bind (fun k => decide (k = (b : Int))) t x (q-1) ((0 : Nat) : Int) :=
+  kpiece_eval_Bind t q b x
+
+example : ConvSpec.peval (ConvSpec.kpiece (fun n => ((n : Nat) : Rat)) 1 0) (1/2) = 1 := by
+  simp [ConvSpec.kpiece, ConvSpec.bpiece, ConvSpec.pscale, ConvSpec.peval]
+
+/-! ## divided differences: Leibniz, annihilation -/
+
+/-- Leibniz' rule for a linear factor (the recurrence behind both the Cox–de Boor recursion of the truncated-power
+representation and the degree count of the early exits) -/
+theorem divdiff_leibniz_linear (x f : Nat → Rat) (a : Rat) (n o : Nat)
+    (hd : ∀ i j, o ≤ i → i < j → j < o + (n+1) → x i ≠ x j) :
+    divdiff x (fun i => (x i - a) * f i) (n+1) o = (x (o+n) - a) * divdiff x f (n+1) o + divdiff x f n o :=
+  dd_leibniz_lin x f a n o hd
+
+example : divdiff (fun i => (i : Rat)) (fun i => ((i : Rat) - 5) * (i : Rat)) 3 0 = 1 := by
+  rw [divdiff_leibniz_linear (fun i => (i : Rat)) (fun i => (i : Rat)) 5 2 0
+    (by intro i j _ hij _; exact_mod_cast (Nat.ne_of_lt hij))]
+  simp [divdiff, Arith.div, Arith.sub]; norm_num
+
+/-! ## `convoluted_blossom` in closed form -/
+
+/-- **closed form of `convoluted_blossom`** (exact arithmetic): including both early exits, the routine returns
+`(x_{nx-1} − x_0) · [x_0..x_{nx-1}]_a [y_0..y_{ny-1}]_b g(x_a + y_b)` with `g(s) = (s − z)_+^0 · Π_m (s − bags_m)`,
+whenever the nodes are strictly increasing, there are fewer bags than the two differences can see
+(`nbags + 3 ≤ nx + ny`; `convolve` calls it with equality) and every node sum strictly between `z` and the last bag
+is one of the bags (true for consecutive knots `z = ρ_i`, `bags = ρ_{i+1..}` of the sorted pairwise sums). -/
+theorem blossom_closed_form (x : Nat → Rat) (nx : Nat) (y : Nat → Rat) (ny : Nat) (z : Rat) (bags : Nat → Rat) (nbags : Nat)
+    (hnx : 1 ≤ nx) (hny : 1 ≤ ny) (hdeg : nbags + 3 ≤ nx + ny)
+    (hx : ∀ a b, a < b → b < nx → x a < x b) (hy : ∀ a b, a < b → b < ny → y a < y b)
+    (hmem : ∀ a b, a < nx → b < ny → z < x a + y b → x a + y b < bags (nbags-1) → ∃ m, m < nbags ∧ x a + y b = bags m) :
+    convolutedBlossom x nx y ny z bags nbags =
+      (x (nx-1) - x 0) * dd2 x y (fun a b => blossomG z bags nbags (x a + y b)) nx 0 ny 0 :=
+  convolutedBlossom_eq x nx y ny z bags nbags hnx hny hdeg hx hy hmem
+
+/-- order 0 against the box: old knots 0,1; kernel 0,1; new knots 0,1,1,2; `z = ρ_0 = 0`, one bag `ρ_1 = 1` -/
+example : convolutedBlossom (fun a => ((a : Nat) : Rat)) 2 (fun b => ((b : Nat) : Rat)) 2 0 (fun _ => 1) 1 =
+    (1 - 0) * dd2 (fun a => ((a : Nat) : Rat)) (fun b => ((b : Nat) : Rat))
+      (fun a b => blossomG 0 (fun _ => 1) 1 (((a : Nat) : Rat) + ((b : Nat) : Rat))) 2 0 2 0 := by
+  have := blossom_closed_form (fun a => ((a : Nat) : Rat)) 2 (fun b => ((b : Nat) : Rat)) 2 0 (fun _ => 1) 1
+    (by omega) (by omega) (by omega)
+    (by intro a b hab _; exact_mod_cast hab) (by intro a b hab _; exact_mod_cast hab)
+    (by intro a b _ _ h1 h2
+        exfalso
+        have h3 : (0 : Rat) < ((a + b : Nat) : Rat) := by push_cast; exact h1
+        have h4 : ((a + b : Nat) : Rat) < 1 := by push_cast; exact h2
+        have h5 : 0 < a + b := by exact_mod_cast h3
+        have h6 : a + b < 1 := by exact_mod_cast h4
+        omega)
+  simpa using this
+
+/-! ## the specification's integral in closed form -/
+
+/-- **the specification's convolution integral in closed form**: for every order `p`, every kernel on `q'+2 ≥ 2`
+strictly increasing knots, strictly increasing table knots and `x ≥ τ_0 + y_0`,
+`∫ f(x−t) M(t) dt = Σ_j c_j (τ_{j+p+1} − τ_j) · (q'+1)! p!/(p+q'+1)! · [τ_j..τ_{j+p+1}] [y_0..y_{q'+1}] (τ_m + y_r − x)_+^{p+q'+1}`. -/
+theorem spec_conv_closed_form (τ : Nat → Rat) (nknots p naxes : Nat) (c : Nat → Rat) (y : Nat → Rat) (q' : Nat) (x : Rat)
+    (hn : naxes + p + 1 = nknots)
+    (hτ : ∀ a b, a < b → b < nknots → τ a < τ b)
+    (hy : ∀ a b, a < b → b ≤ q' + 1 → y a < y b)
+    (hx : τ 0 + y 0 ≤ x) :
+    ConvSpec.conv1 τ nknots p naxes c y (q'+1) x =
+      ∑ j ∈ Finset.range naxes, c j * ((τ (j+p+1) - τ j) *
+        (((q':Rat) + 1) * ((p.factorial : Rat) * q'.factorial / (p + q' + 1).factorial)) *
+        dd2 τ y (fun m r => pospow (τ m + y r - x) (p + q' + 1)) (p+2) j (q'+2) 0) :=
+  conv1_closed τ nknots p naxes c y q' x hn hτ hy hx
+
+example : ∃ v : Rat, ConvSpec.conv1 (fun i => ((i : Nat) : Rat)) 3 0 2 (fun _ => 1) (fun i => ((i : Nat) : Rat)) 1 (3/2) = v :=
+  ⟨_, spec_conv_closed_form (fun i => ((i : Nat) : Rat)) 3 0 2 (fun _ => 1) (fun i => ((i : Nat) : Rat)) 0 (3/2) rfl
+    (by intro a b hab _; exact_mod_cast hab) (by intro a b hab _; exact_mod_cast hab) (by norm_num)⟩
+
+/-! ## Strøm's identity -/
+
+/-- **Strøm's identity in one dimension, every order, every kernel** (coinciding pairwise sums allowed: `rho` is only
+required to be sorted, to contain every pairwise sum and to start at `τ_0 + y_0`): for every old coefficient vector `c`,
+the coefficients `Σ_j trafo[i,j]·c_j` that `convolve` stores, taken against the polynomial piece `left` of the new basis
+(degree `p+q`), equal the specification's convolution integral at every `x ∈ [ρ_left, ρ_{left+1}]`. -/
+theorem strom_identity_1d (knots ck rho : List Rat) (p q' naxes : Nat) (c : Nat → Rat) (left : Nat) (t : Int → Rat) (x norm : Rat)
+    (hck : ck.length = q' + 2) (hn : naxes + p + 1 = knots.length)
+    (hτ : ∀ a b, a < b → b < knots.length → getK knots a < getK knots b)
+    (hy : ∀ a b, a < b → b < ck.length → getK ck a < getK ck b)
+    (hsorted : rho.Pairwise (· ≤ ·))
+    (hmem : ∀ a b, a < knots.length → b < ck.length → getK knots a + getK ck b ∈ rho)
+    (hlow : getK knots 0 + getK ck 0 ≤ getK rho 0)
+    (hleft : left + 1 < rho.length) (hne : getK rho left < getK rho (left+1))
+    (hx1 : getK rho left ≤ x) (hx2 : x ≤ getK rho (left+1))
+    (ht : ∀ i : Nat, i < rho.length → t (i : Int) = getK rho i)
+    (hnorm : norm = (((q'+1).factorial * p.factorial : Nat) : Rat) / (((p + 1 + (q'+1) - 1).factorial : Nat) : Rat)) :
+    ∑ i ∈ Finset.range (rho.length - (p + (q'+1)) - 1),
+        (∑ j ∈ Finset.range naxes, trafoEntry knots ck rho (p+1) (q'+1) norm i j * c j) * Bp t x (left : Int) (p + (q'+1)) (i : Int)
+      = ConvSpec.conv1 (getK knots) knots.length p naxes c (getK ck) (q'+1) x :=
+  strom_core knots ck rho p q' naxes c left t x norm hck hn hτ hy hsorted hmem hlow hleft hne hx1 hx2 ht hnorm
+
+/-- **Strøm's identity for the table returned by `convolve`, slice by slice, any number of dimensions**: with `i`, `k`
+the combined indices of the dimensions before / after `dim`, the stored coefficients `R.coef[i, ·, k]` against the
+shared Cox–de Boor specification `Bsel` of the new dimension (order `order+n−1`, knots = sorted pairwise sums, C01
+convention) are the specification's convolution integral of the old slice `T.coef[i, ·, k]`, at every point of the
+new knot range.  Hypotheses: knots of `dim` and of the kernel strictly increasing, `n ≥ 2`, factorials fit
+(`order + n − 1 ≤ 12`), at least one coefficient. -/
+theorem blossom_is_convolution_slices (T : CTable Rat) (dim : Nat) (ck : List Rat) (d : CDim Rat)
+    (hd : T.dims[dim]? = some d) (hk : d.knots.length = d.nknots) (hnax : d.naxes + d.order + 1 = d.nknots)
+    (hn1 : 1 ≤ d.naxes)
+    (hτ : d.knots.Pairwise (· < ·)) (hy : ck.Pairwise (· < ·)) (hq : 2 ≤ ck.length)
+    (h12 : d.order + ck.length - 1 ≤ 12) :
+    ∃ R d', convolve T dim ck = some R ∧ R.dims[dim]? = some d' ∧
+      d'.knots = sortKnots (pairSums d.knots ck) ∧ d'.order = d.order + ck.length - 1 ∧
+      d'.nknots = d'.knots.length ∧ d'.naxes + d'.order + 1 = d'.nknots ∧ 1 ≤ d'.naxes ∧
+      ∀ i k, i < prodL ((T.dims.map (·.naxes)).take dim) → k < prodL ((T.dims.map (·.naxes)).drop (dim+1)) →
+      ∀ (x : Rat), getK d'.knots 0 ≤ x → x ≤ getK d'.knots (d'.nknots - 1) →
+        ∑ l ∈ Finset.range d'.naxes,
+            R.coef.getD (i * prodL ((T.dims.map (·.naxes)).drop (dim+1)) * d'.naxes
+              + l * prodL ((T.dims.map (·.naxes)).drop (dim+1)) + k) 0 * Bsel (ConvSpec.toDim d') x 0 l
+          = ConvSpec.conv1 (getK d.knots) d.nknots d.order d.naxes
+              (fun j => T.coef.getD (i * prodL ((T.dims.map (·.naxes)).drop (dim+1)) * d.naxes
+                + j * prodL ((T.dims.map (·.naxes)).drop (dim+1)) + k) 0)
+              (getK ck) (ck.length - 1) x :=
+  convolve_slices_spec T dim ck d hd hk hnax hn1 hτ hy hq h12
+
+/-- the hypotheses are satisfiable: order 1 on knots 0,1,2,4 (two coefficients) convolved with the kernel on 0,1,3 -/
+example : ∃ R d', convolve (⟨[⟨1, 4, 2, 1, [0, 1, 2, 4], 0, 4⟩], #[1, 2]⟩ : CTable Rat) 0 [0, 1, 3] = some R ∧
+    R.dims[0]? = some d' ∧ d'.order = 3 :=
+  let ⟨R, d', h, hd', _, ho, _⟩ := blossom_is_convolution_slices (⟨[⟨1, 4, 2, 1, [0, 1, 2, 4], 0, 4⟩], #[1, 2]⟩ : CTable Rat) 0
+    [0, 1, 3] ⟨1, 4, 2, 1, [0, 1, 2, 4], 0, 4⟩ rfl rfl rfl (by decide) (by decide) (by decide) (by decide) (by decide)
+  ⟨R, d', h, hd', ho⟩
+
+/-- **Strøm's identity for the table (the full statement of the header)**: for a table of any number of dimensions
+with row-major strides, any dimension `dim` whose knots are strictly increasing, any kernel on `n ≥ 2` strictly
+increasing knots (`order + n − 1 ≤ 12` so that the `unsigned` factorials are exact): the table returned by
+`PsV.convolve`, evaluated through the shared Cox–de Boor specification as the sum over **all** stored coefficients
+`Σ coef · Π_d B_d(x_d)` (`ConvSpec.evalTable`), equals the specification's convolution integral
+`ConvSpec.specConv` of the original table, at every point whose coordinate `dim` lies in the new knot range
+`[ρ_0, ρ_last]`, `ρ` = the sorted pairwise sums (coinciding sums included). -/
+theorem blossom_is_convolution (T : CTable Rat) (dim : Nat) (ck : List Rat) (d : CDim Rat) (xs : List Rat)
+    (hd : T.dims[dim]? = some d)
+    (hstr : ∀ j e, T.dims[j]? = some e → e.stride = ((T.dims.map (·.naxes)).drop (j+1)).prod)
+    (hxs : xs.length = T.dims.length)
+    (hk : d.knots.length = d.nknots) (hnax : d.naxes + d.order + 1 = d.nknots) (hn1 : 1 ≤ d.naxes)
+    (hτ : d.knots.Pairwise (· < ·)) (hy : ck.Pairwise (· < ·)) (hq : 2 ≤ ck.length)
+    (h12 : d.order + ck.length - 1 ≤ 12) :
+    ∃ R d', convolve T dim ck = some R ∧ R.dims[dim]? = some d' ∧
+      d'.knots = sortKnots (pairSums d.knots ck) ∧ d'.nknots = d'.knots.length ∧
+      (getK d'.knots 0 ≤ xs.getD dim 0 → xs.getD dim 0 ≤ getK d'.knots (d'.nknots - 1) →
+        ConvSpec.evalTable R xs = ConvSpec.specConv T dim ck xs) := by
+  obtain ⟨R, d', hR, hd', h⟩ := convolve_is_convolution T dim ck d xs hd hstr hxs hk hnax hn1 hτ hy hq h12
+  obtain ⟨R2, d2, hR2, hd2, hkn, _, hnk, _⟩ := convolve_slices_spec T dim ck d hd hk hnax hn1 hτ hy hq h12
+  have hRR : R2 = R := Option.some.inj (hR2.symm.trans hR)
+  subst hRR
+  have hdd : d2 = d' := Option.some.inj (hd2.symm.trans hd')
+  subst hdd
+  exact ⟨R2, d2, hR, hd', hkn, hnk, h⟩
+
+/-- the hypotheses are satisfiable: a two-dimensional table (orders 1 and 0), convolved along dimension 0 with the
+kernel on 0, 1, 3, at a point inside the new knot range -/
+example : ∃ R d', convolve (⟨[⟨1, 4, 2, 2, [0, 1, 2, 4], 0, 4⟩, ⟨0, 3, 2, 1, [0, 1, 2], 0, 2⟩], #[1, 2, 3, 4]⟩ : CTable Rat) 0
+      [0, 1, 3] = some R ∧ R.dims[0]? = some d' ∧ d'.nknots = d'.knots.length :=
+  let ⟨R, d', h, hd', _, hn, _⟩ := blossom_is_convolution
+    (⟨[⟨1, 4, 2, 2, [0, 1, 2, 4], 0, 4⟩, ⟨0, 3, 2, 1, [0, 1, 2], 0, 2⟩], #[1, 2, 3, 4]⟩ : CTable Rat) 0 [0, 1, 3]
+    ⟨1, 4, 2, 2, [0, 1, 2, 4], 0, 4⟩ [5/2, 1/2] rfl
+    (by intro j e h
+        rcases j with _ | _ | j
+        · simp at h; subst h; rfl
+        · simp at h; subst h; rfl
+        · simp at h)
+    rfl rfl rfl (by decide) (by decide) (by decide) (by decide) (by decide)
+  ⟨R, d', h, hd', hn⟩
+
+/-! ## the new knot vector is *the* sorted arrangement of the pairwise sums -/
+
+/-- whatever (stable or unstable) sort is used: any ascending permutation of the pairwise sums is the knot vector the
+model produces (`std::sort` in the C++, merge sort in the model) -/
+theorem conv_knots_canonical (ks ck l : List Rat) (hp : l.Perm (pairSums ks ck)) (hs : l.Pairwise (· ≤ ·)) :
+    sortKnots (pairSums ks ck) = l :=
+  List.Perm.eq_of_pairwise (fun _ _ _ _ h1 h2 => le_antisymm h1 h2) (sortKnots_sorted _) hs
+    ((sortKnots_perm _).trans hp.symm)
+
+example : sortKnots (pairSums ([0, 1] : List Rat) [0, 1]) = [0, 1, 1, 2] :=
+  conv_knots_canonical [0, 1] [0, 1] [0, 1, 1, 2]
+    (by simp [pairSums, Arith.add]; norm_num) (by decide)
+
+/-! ## what the driver prints as "exact value of the model's table" -/
+
+/-- the exact value the C14 driver computes for the table produced by the exact model (`evalExact`, a memoised
+Cox–de Boor table) is `ConvSpec.evalTable`: the sum over all stored coefficients against the shared specification -/
+theorem driver_eval_is_table_value (R : CTable Rat) (xs : List Rat)
+    (hn : ∀ d ∈ R.dims, d.naxes = d.nknots - d.order - 1) :
+    Driver.C14.evalExact R xs = ConvSpec.evalTable R xs :=
+  evalExact_eq_evalTable R xs hn
+
+example : Driver.C14.evalExact (⟨[⟨1, 4, 2, 1, [0, 1, 2, 4], 0, 4⟩], #[1, 2]⟩ : CTable Rat) [3/2] =
+    ConvSpec.evalTable ⟨[⟨1, 4, 2, 1, [0, 1, 2, 4], 0, 4⟩], #[1, 2]⟩ [3/2] :=
+  driver_eval_is_table_value _ _ (by intro d hd; simp at hd; subst hd; rfl)
+
+/-- **the exact comparison of the check holds for all inputs**: what the driver prints as exact value of the table
+produced by the exact model equals what it prints as specification value, whenever the table is well-formed
+(row-major strides, `naxes = nknots − order − 1`), the knots of `dim` and of the kernel strictly increase, `n ≥ 2`,
+`order + n − 1 ≤ 12`, and the point lies in the new knot range. -/
+theorem driver_exact_check_holds (T : CTable Rat) (dim : Nat) (ck : List Rat) (d : CDim Rat) (xs : List Rat)
+    (hd : T.dims[dim]? = some d)
+    (hstr : ∀ j e, T.dims[j]? = some e → e.stride = ((T.dims.map (·.naxes)).drop (j+1)).prod)
+    (hwf : ∀ e ∈ T.dims, e.naxes = e.nknots - e.order - 1)
+    (hxs : xs.length = T.dims.length)
+    (hk : d.knots.length = d.nknots) (hnax : d.naxes + d.order + 1 = d.nknots) (hn1 : 1 ≤ d.naxes)
+    (hτ : d.knots.Pairwise (· < ·)) (hy : ck.Pairwise (· < ·)) (hq : 2 ≤ ck.length)
+    (h12 : d.order + ck.length - 1 ≤ 12) :
+    ∃ R d', convolve T dim ck = some R ∧ R.dims[dim]? = some d' ∧
+      (getK d'.knots 0 ≤ xs.getD dim 0 → xs.getD dim 0 ≤ getK d'.knots (d'.nknots - 1) →
+        Driver.C14.evalExact R xs = ConvSpec.specConv T dim ck xs) :=
+  evalExact_convolve T dim ck d xs hd hstr hwf hxs hk hnax hn1 hτ hy hq h12
+
+example : ∃ R d', convolve (⟨[⟨1, 4, 2, 1, [0, 1, 2, 4], 0, 4⟩], #[1, 2]⟩ : CTable Rat) 0 [0, 1, 3] = some R ∧
+    R.dims[0]? = some d' :=
+  let ⟨R, d', h, hd', _⟩ := driver_exact_check_holds (⟨[⟨1, 4, 2, 1, [0, 1, 2, 4], 0, 4⟩], #[1, 2]⟩ : CTable Rat) 0 [0, 1, 3]
+    ⟨1, 4, 2, 1, [0, 1, 2, 4], 0, 4⟩ [5/2] rfl
+    (by intro j e h
+        rcases j with _ | j
+        · simp at h; subst h; rfl
+        · simp at h)
+    (by intro e he; simp at he; subst he; rfl)
+    rfl rfl rfl (by decide) (by decide) (by decide) (by decide) (by decide)
+  ⟨R, d', h, hd'⟩
 
 end PsV
